@@ -21,7 +21,7 @@ exactly that class, so no input is left unsearched for other disagreements.
 from __future__ import annotations
 
 import vlib.boot  # noqa: F401
-from vlib.boot import B, THOROUGH
+from vlib.boot import B, THOROUGH  # noqa: F401  (THOROUGH is used in pre: lines)
 from vlib.h_tools import cbool, cint, untraced
 from vlib.ob import obligation
 
@@ -334,7 +334,8 @@ def _mk_skips(w0, w1, w2, ks):
     return mk
 
 
-_P2Q = [f"pair == {p} and a0 {c}" for p in range(3) for c in ("== 0", ">= 1")]
+_P2Q = ["pair == 0 and a0 == 0", "pair == 1 and a0 == 0", "pair == 2 and a0 == 0 and a1 <= 1", "pair == 2 and a0 == 0 and a1 >= 2",
+        "a0 >= 1"]
 _P2T = [f"pair == {p} and a0 {c}" for p in range(len(PAIRS)) for c in ("== 0", ">= 1")]
 
 
@@ -343,11 +344,14 @@ _P2T = [f"pair == {p} and a0 {c}" for p in range(len(PAIRS)) for c in ("== 0", "
                  "(InputRequiredEvent (sub)class produced or HumanResponseEvent (sub)class consumed)",
             bounds={"steps": 2, "columns": 4, "slot pairs": "0..NPAIRS-1 (3 quick / 8 thorough)",
                     "accepts": "one column per step", "returns": "any subset of the columns",
-                    "skips": "3 workflow-level bits"})
+                    "skips": "3 workflow-level bits",
+                    "quick": "s0 accepts StartEvent, or nobody does and s1 returns nothing; terminal_event/dead_end skips only "
+                             "for pair 0; thorough: unrestricted"})
 def ob_graph2(pair: int, a0: int, a1: int, r00: bool, r01: bool, r02: bool, r03: bool, r10: bool, r11: bool, r12: bool,
               r13: bool, w0: bool, w1: bool, w2: bool) -> bool:
     """
     pre: 0 <= pair < NPAIRS and 0 <= a0 <= 3 and 0 <= a1 <= 3
+    pre: THOROUGH or ((a0 == 0 or (a1 >= 1 and not (r10 or r11 or r12 or r13))) and (pair == 0 or not (w1 or w2)))
     pre: not (sub_only2(pair, a0, a1, r02, r03, r12, r13))  # TEMP-EXCL
     post: _
     """
@@ -355,7 +359,7 @@ def ob_graph2(pair: int, a0: int, a1: int, r00: bool, r01: bool, r02: bool, r03:
     return _agree(steps, _mk_skips(w0, w1, w2, [0, 0]), w0, True)
 
 
-@obligation(quick=200, thorough=600, partitions_quick=["pair == 1"],
+@obligation(quick=200, thorough=600, partitions_quick=["pair == 1 and a1 <= 1", "pair == 1 and a1 >= 2"],
             partitions_thorough=[f"pair == {p}" for p in (1, 3, 4, 6, 7)],
             what="accept/reject agreement on the inputs that the known HITL-flag finding excludes from ob_graph2 "
                  "(so the class is still searched for every other disagreement)",
@@ -364,6 +368,7 @@ def ob_graph2_accept_on_hitl_subclass(pair: int, a0: int, a1: int, r00: bool, r0
                                       r11: bool, r12: bool, r13: bool, w0: bool, w1: bool, w2: bool) -> bool:
     """
     pre: 0 <= pair < NPAIRS and 0 <= a0 <= 3 and 0 <= a1 <= 3
+    pre: THOROUGH or ((a0 == 0 or (a1 >= 1 and not (r10 or r11 or r12 or r13))) and (pair == 0 or not (w1 or w2)))
     pre: sub_only2(pair, a0, a1, r02, r03, r12, r13)
     post: _
     """
@@ -380,6 +385,7 @@ def ob_step_skips2(pair: int, a1: int, r00: bool, r01: bool, r02: bool, r03: boo
                    r13: bool, w0: bool, w2: bool, k0: int, k1: int) -> bool:
     """
     pre: 0 <= pair < NPAIRS and 2 <= a1 <= 3 and 0 <= k0 <= 3 and 0 <= k1 <= 3
+    pre: THOROUGH or (not (w0 or w2) and (pair == 0 or k0 == 0))
     post: _
     """
     steps = _steps2(pair, 0, a1, [r00, r01, r02, r03], [r10, r11, r12, r13])
@@ -434,9 +440,9 @@ def ob_handlers(nh: int, f1: int, f2: int, m1: int, m2: int, w0: bool) -> bool:
             what="a handler's sub-graph: handler steps are reachability seeds, their outputs obey the connectivity / "
                  "terminal / dead-end rules like any step's",
             bounds={"handler": 1, "handler returns": "None/Stop/EvA/EvB", "extra step fed by the handler": "yes/no"})
-def ob_handler_graph(f1: int, ret1: int, extra: bool, xr: int, w0: bool, w1: bool, w2: bool, kh: int, kx: int) -> bool:
+def ob_handler_graph(f1: int, ret1: int, extra: bool, xr: int, w0: bool, w2: bool, khd: bool, kx: int) -> bool:
     """
-    pre: 0 <= f1 <= 1 and 0 <= ret1 <= 3 and 0 <= xr <= 3 and 0 <= kh <= 3 and 0 <= kx <= 3
+    pre: 0 <= f1 <= 1 and 0 <= ret1 <= 3 and 0 <= xr <= 3 and 0 <= kx <= 3
     post: _
     """
     steps = [
@@ -449,8 +455,8 @@ def ob_handler_graph(f1: int, ret1: int, extra: bool, xr: int, w0: bool, w1: boo
         steps.append(("s2", [EvB], list(_RETS[cint(xr, 0, 3)]), "step", None, 1, []))
 
     def mk():
-        wf, _ = _mk_skips(w0, w1, w2, [])()
-        per = [[], [], _skip_list(kh)] + ([_skip_list(kx)] if has_extra else [])
+        wf, _ = _mk_skips(w0, False, w2, [])()
+        per = [[], [], (["dead_end"] if khd else [])] + ([_skip_list(kx)] if has_extra else [])
         return wf, per
 
     return _agree(steps, mk, w0, True)
